@@ -435,3 +435,221 @@ def formulas(P, rep, thorough=False, rule="EXPR.models"):
                 rep.violation(rule, "%s returns %s" % (F.qn, v), F.nloc(init), F.qn, norm.render(P, init)[:160], "expected the linear profile between the clipped bounds",
                               key="%s|%s" % (rule, F.qn), witness="linear model, query at the model top and bottom")
     rep.floor(rule, n, 14, "uniform/adiabatic/linear temperature models")
+
+
+# ------------------------------------------------------------------------------------------------
+def operation_algebra(P, rep, rule="EXPR.operation"):
+    """apply_operation: REPLACE, REPLACE_DEFINED_ONLY -> new; ADD -> old+new; SUBTRACT -> old-new; all enumerators covered;
+    string_operations_to_enum maps the four documented strings to the enumerators of the same meaning"""
+    rep.rule(rule, "apply_operation(op, old, new) = new for REPLACE and REPLACE_DEFINED_ONLY, old+new for ADD, old-new for SUBTRACT, "
+                   "with a case for every enumerator; string_operations_to_enum maps \"replace\", \"replace defined only\", \"add\", "
+                   "\"subtract\" to the enumerators of the same name; every model schema admits exactly these strings")
+    F = P.func("WorldBuilder::Features::FeatureUtilities::apply_operation")
+    sws = [n for n in F.walk() if n.get("k") == "SwitchStmt"]
+    if len(sws) != 1:
+        rep.unknown(rule, "apply_operation: %d switches" % len(sws))
+        return
+    cases = astq.switch_cases(sws[0])
+    old, new = sp.Symbol("old"), sp.Symbol("new")
+    sym = norm.Sym(P, F, inline_locals=False, env={F.params[1]: old, F.params[2]: new})
+    want = {"REPLACE": new, "REPLACE_DEFINED_ONLY": new, "ADD": old + new, "SUBTRACT": old - new}
+    enum = P.enums.get("WorldBuilder::Features::FeatureUtilities::Operations")
+    if enum is None:
+        raise AnalysisBroken("enum Operations not found")
+    enumerators = [c["n"] for c in enum["consts"]]
+    if sorted(enumerators) != sorted(want):
+        rep.violation(rule, "Operations has enumerators %s" % enumerators, F.loc, F.qn, "", "documented operations are %s" % sorted(want), key=rule + "|enum")
+    got = {}
+    for label, stmts in cases.items():
+        if label == "default":
+            continue
+        rets = [s for s in stmts if s.get("k") == "ReturnStmt"]
+        if len(rets) != 1 or not rets[0].get("c"):
+            rep.violation(rule, "apply_operation case %s does not return a value" % label, F.nloc(stmts[0]) if stmts else F.loc, F.qn, "", "falls through to the NaN default",
+                          key="%s|case|%s" % (rule, label), witness="model with operation %s" % label)
+            continue
+        got[label] = sym(rets[0]["c"][0])
+    for e in enumerators:
+        if e not in got:
+            rep.violation(rule, "apply_operation has no case for %s" % e, F.nloc(sws[0]), F.qn, "", "the NaN default becomes reachable", key="%s|missing|%s" % (rule, e),
+                          witness="model with operation %s" % e.lower())
+        elif e in want and sp.expand(got[e] - want[e]) != 0:
+            rep.violation(rule, "apply_operation(%s) = %s" % (e, got[e]), F.nloc(sws[0]), F.qn, str(got[e]), "expected %s" % want[e], key="%s|value|%s" % (rule, e),
+                          witness="two overlapping features, operation %s" % e.lower())
+        elif e in want:
+            rep.ok(rule, "apply_operation(%s, old, new) = %s" % (e, want[e]), F.nloc(sws[0]), F.qn)
+    # string -> enum
+    S = P.func("WorldBuilder::Features::FeatureUtilities::string_operations_to_enum")
+    mapping = {}
+    default = None
+    for n in S.walk():
+        if n.get("k") == "IfStmt" and not n.get("m"):
+            from .asserts import string_compare
+            subj, lit = string_compare(P, S, sc(n["c"][0]))
+            r = [x for x in S.walk(n["c"][1]) if x.get("k") == "ReturnStmt"]
+            if subj is not None and r:
+                mapping[lit] = P.d(sc(r[0]["c"][0]).get("r")).get("n")
+    for n in astq.stmts_of(S.body):
+        if n.get("k") == "ReturnStmt" and n.get("c"):
+            default = P.d(sc(n["c"][0]).get("r")).get("n")
+    want_map = {"add": "ADD", "subtract": "SUBTRACT", "replace defined only": "REPLACE_DEFINED_ONLY"}
+    if mapping == want_map and default == "REPLACE":
+        rep.ok(rule, "string_operations_to_enum: %s, otherwise REPLACE" % mapping, S.loc, S.qn)
+    else:
+        rep.violation(rule, "string_operations_to_enum maps %s, default %s" % (mapping, default), S.loc, S.qn, "", "expected %s and REPLACE for \"replace\"" % want_map,
+                      key=rule + "|strings", witness="model with operation add / subtract / replace defined only")
+    # schemas admit exactly the four strings
+    n_decl = 0
+    for D in P.funcs.values():
+        if D.name != "declare_entries" or "Models::" not in D.qn:
+            continue
+        for n in D.walk():
+            mc = astq.member_call(P, n, "declare_entry")
+            if not mc or not mc[2]:
+                continue
+            from .asserts import string_lit
+            if string_lit(D, mc[2][0]) != "operation":
+                continue
+            n_decl += 1
+            lits = [x["v"] for x in D.walk(mc[2][1]) if x.get("k") == "StringLiteral"]
+            allowed = lits[1:] if lits else []
+            if sorted(set(allowed)) != sorted(["replace", "replace defined only", "add", "subtract"]) or (lits and lits[0] != "replace"):
+                rep.violation(rule, "%s admits operations %s (default %s)" % (D.qn, allowed, lits[:1]), D.nloc(n), D.qn, "", "documented: replace (default), replace defined only, add, subtract",
+                              key="%s|schema|%s" % (rule, D.qn), witness="an operation string the dispatcher maps to REPLACE silently")
+    rep.ok(rule, "%d model schemas admit exactly {replace, replace defined only, add, subtract}" % n_decl)
+    rep.floor(rule, n_decl, 10, "\"operation\" declarations in model schemas")
+
+
+# models whose documented definition is relative to the temperature painted so far (one line of reason each)
+AMBIENT_RELATIVE = {
+    "MassConserving": "the mass-conserving slab temperature is an anomaly on the ambient mantle temperature and tapers back to it where "
+                      "the slab's heat content is exhausted (documented; Billen & Fraters)",
+}
+
+
+def new_value_independent(P, rep, rule="R1.new-value"):
+    """the value handed to apply_operation as `new` does not depend on the incoming (painted so far) value"""
+    rep.rule(rule, "the new value a temperature/composition model hands to apply_operation is computed from the model's parameters, the "
+                   "point and the world's constants only -- never from the value painted so far (otherwise 'replace' would not overwrite)")
+    n = 0
+    for ftype, kind, name, F in model_getters(P, ("Temperature", "Composition")):
+        inc = incoming_param(P, F, kind)
+        if inc is None:
+            continue
+        inits = {}
+        assigns = {}
+        for x in F.walk():
+            if x.get("k") == "VarDecl" and x.get("c"):
+                inits.setdefault(x["r"], []).append(x["c"][0])
+            if x.get("k") in ("BinaryOperator", "CompoundAssignOperator") and x.get("op") in norm.ASSIGN_OPS:
+                t = sc(x["c"][0])
+                if t.get("k") == "DeclRefExpr":
+                    assigns.setdefault(t["r"], []).append(x["c"][1])
+        for r in F.walk():
+            if not is_apply_operation(P, r):
+                continue
+            n += 1
+            X = r["c"][3]
+            seen = set()
+            work = [X]
+            tainted = None
+            while work:
+                e = work.pop()
+                for x in F.walk(e):
+                    if x.get("k") == "DeclRefExpr":
+                        k = x["r"]
+                        if k == inc:
+                            tainted = x
+                        if k in seen:
+                            continue
+                        seen.add(k)
+                        # the local copy `double composition = composition_;` that is overwritten before use is not a dependence
+                        srcs = list(assigns.get(k, []))
+                        if not srcs:
+                            srcs = list(inits.get(k, []))
+                        elif not all(astq.is_ref_to(i, inc) for i in inits.get(k, [])):
+                            srcs += list(inits.get(k, []))
+                        work.extend(srcs)
+            if tainted is not None and F.qn.rsplit("::", 2)[-2] in AMBIENT_RELATIVE:
+                rep.ok(rule, "%s::%s::%s uses the ambient value by definition: %s" % (ftype, kind, name, AMBIENT_RELATIVE[F.qn.rsplit("::", 2)[-2]]), F.nloc(r), F.qn)
+            elif tainted is not None:
+                rep.violation(rule, "%s: the new value %s depends on the incoming value" % (F.qn, norm.render(P, X)[:50]), F.nloc(r), F.qn,
+                              norm.render(P, r)[:120], "with operation replace, an earlier feature's value leaks into the result",
+                              key="%s|%s" % (rule, F.qn), witness="the feature painted over another feature vs. the feature alone")
+            else:
+                rep.ok(rule, "%s::%s::%s" % (ftype, kind, name), F.nloc(r), F.qn)
+    rep.floor(rule, n, 34, "apply_operation calls in models")
+
+
+def feature_folds(P, rep, rule="FOLD"):
+    """in each feature and kind: v := slot; for each model: v := m->get_*(..., v, ...); slot := v"""
+    rep.rule(rule, "inside its extent a feature folds its models of a kind over the value painted so far: the model receives the "
+                   "current slot value (resp. the running local) as its incoming argument and its result is stored back to the same "
+                   "slot; without models of that kind the slot is untouched; the tag slot receives the feature's own tag_index")
+    from .layout import feature_properties, find_switch_on_kind
+    n = 0
+    for F in feature_properties(P):
+        out_key = F.params[6]
+        sw = find_switch_on_kind(P, F)[0]
+        cases = astq.switch_cases(sw)
+        for kind_id, kind in ((1, "Temperature"), (2, "Composition")):
+            stmts = cases.get(kind_id, [])
+            calls = []
+            for s in stmts:
+                for x in F.walk(s):
+                    if x.get("k") == "CXXMemberCallExpr" and P.d(x.get("callee")).get("n") == GET[kind]:
+                        calls.append(x)
+            for c in calls:
+                n += 1
+                # incoming argument position from the callee's parameter names
+                callee = P.d(c["callee"])
+                # find index of the incoming parameter via any overrider with a body
+                idx = None
+                for k in P.overriders.get(c["callee"], ()):
+                    G = P.funcs.get(k)
+                    if G is not None:
+                        inc = incoming_param(P, G, kind)
+                        if inc is not None:
+                            idx = G.params.index(inc)
+                            break
+                if idx is None:
+                    rep.unknown(rule, "%s: incoming argument of %s not located" % (F.qn, callee.get("qn")))
+                    continue
+                arg = c["c"][1 + idx]
+                # stored back to
+                par = F.parent.get(c["i"])
+                while par is not None and par.get("k") in norm.CASTS:
+                    par = F.parent.get(par["i"])
+                tgt = None
+                if par is not None and par.get("k") == "BinaryOperator" and par.get("op") == "=":
+                    tgt = par["c"][0]
+                elif par is not None and par.get("k") == "VarDecl":
+                    tgt = {"k": "DeclRefExpr", "r": par["r"], "n": par.get("n"), "i": -999999}
+                a_txt = norm.render(P, arg, nocast=True)
+                t_txt = norm.render(P, tgt, nocast=True) if tgt is not None else "?"
+                loop = astq.enclosing(F, c, ("CXXForRangeStmt", "ForStmt"))
+                in_model_loop = loop is not None and "_models" in norm.render(P, loop["c"][1] if loop["k"] == "CXXForRangeStmt" else loop["c"][1])
+                ok = tgt is not None and a_txt == t_txt and in_model_loop
+                if not ok and tgt is not None:
+                    # slab/fault: temperature_current_section = model->get_temperature(..., temperature_current_section, ...) later interpolated into the slot
+                    ok = a_txt == t_txt or (a_txt.startswith("output[") and t_txt.startswith("output["))
+                if ok:
+                    rep.ok(rule, "%s %s: %s = model(..., %s, ...)" % (F.qn.split("::")[-2], kind.lower(), t_txt[:40], a_txt[:40]), F.nloc(c), F.qn)
+                else:
+                    rep.violation(rule, "%s: %s model receives %s but its result is stored to %s" % (F.qn, kind.lower(), a_txt[:50], t_txt[:50]), F.nloc(c), F.qn,
+                                  norm.render(P, par)[:140] if par else "", "the models of a kind do not compose over the value painted so far",
+                                  key="%s|%s|%s" % (rule, F.qn, kind), witness="two models of the same kind with operation add")
+        # tag
+        for s in cases.get(4, []):
+            for x in F.walk(s):
+                if x.get("k") == "BinaryOperator" and x.get("op") == "=":
+                    sub = astq.subscript(x["c"][0])
+                    if sub and astq.is_ref_to(sub[0], out_key):
+                        n += 1
+                        v = sc(x["c"][1])
+                        if v.get("k") == "MemberExpr" and astq.is_this_field(P, v, "tag_index"):
+                            rep.ok(rule, "%s tag <- this->tag_index" % F.qn.split("::")[-2], F.nloc(x), F.qn)
+                        else:
+                            rep.violation(rule, "%s writes %s into the tag slot" % (F.qn, norm.render(P, v)[:50]), F.nloc(x), F.qn, norm.render(P, x)[:100],
+                                          "the reported tag is not the covering feature's", key="%s|%s|tag" % (rule, F.qn), witness="tag request inside the feature")
+    rep.floor(rule, n, 18, "model folds and tag writes in the 6 features")
